@@ -408,43 +408,73 @@ Section Trav2.
     cbn [fst snd]. apply (H c F).
   Qed.
 
+  Lemma w_ssa_patch s l n :
+    (forall c, find_obj (objs (r_cl s)) (l_id l) = Some c -> can_apply sc (c_owner c) = true) ->
+    Inv s -> Inv (fst (ssa_patch sc s l n)).
+  Proof.
+    intros HP I0. pose proof I0 as [W0 C0].
+    pose proof (aok_from_coh _ _ (l_id l) C0 HP) as AK.
+    unfold ssa_patch. cbv zeta.
+    destruct (faulted sc (FStream (l_id l) n)); cbn [fst].
+    { apply (Inv_log s); [apply mc_tr|exact I0|exact AK|rewrite mc_cl; exact C0]. }
+    destruct (faulted sc (FApply (l_id l))); cbn [fst].
+    { apply (Inv_log s); [apply mc_tr|exact I0|exact AK|rewrite mc_cl; exact C0]. }
+    rewrite (mc_cl sc s).
+    destruct (find_obj (objs (r_cl s)) (l_id l)) as [c|] eqn:EF;
+      destruct (match o_dry (sc_opts sc) with DServer => true | _ => false end); cbn [fst].
+    + apply (Inv_log s); [apply mc_tr|exact I0|exact AK|rewrite mc_cl; exact C0].
+    + apply (Inv_log s); [cbn [set_cl r_tr]; apply mc_tr|exact I0|exact AK|].
+      cbn [set_cl r_cl]. unfold replay_req. cbn [negb]. apply coh_put'; [reflexivity|reflexivity|exact C0].
+    + apply (Inv_log s); [apply mc_tr|exact I0|exact AK|rewrite mc_cl; exact C0].
+    + apply (Inv_log s); [cbn [set_cl r_tr]; apply mc_tr|exact I0|exact AK|].
+      cbn [set_cl r_cl]. unfold replay_req. cbn [negb]. apply coh_put'; [reflexivity|reflexivity|exact C0].
+  Qed.
+
+  Lemma w_csa_apply s l :
+    (forall c, find_obj (objs (r_cl s)) (l_id l) = Some c -> can_apply sc (c_owner c) = true) ->
+    Inv s -> Inv (fst (csa_apply sc s l)).
+  Proof.
+    intros HP I0. pose proof I0 as [W0 C0].
+    pose proof (aok_from_coh _ _ (l_id l) C0 HP) as AK.
+    unfold csa_apply. cbv zeta.
+    pose proof (same4_get_obj sc s (l_id l)) as G. pose proof (get_obj_found sc s (l_id l)) as GF.
+    destruct (get_obj sc s (l_id l)) as [s1 g]. cbn [fst snd] in G, GF. destruct G as [G1 [_ [_ G4]]].
+    assert (I1 : Inv s1) by (eapply Inv_same; eassumption).
+    destruct g as [| |c]; cbn [fst]; try exact I1.
+    + destruct (is_dry _); cbn [fst]; [exact I1|].
+      destruct (faulted sc (FApply (l_id l))); cbn [fst].
+      { apply (Inv_log s); [rewrite mc_tr; exact G4|exact I0|exact AK|rewrite mc_cl, G1; exact C0]. }
+      apply (Inv_log s); [cbn [set_cl r_tr]; rewrite mc_tr; exact G4|exact I0|exact AK|].
+      cbn [set_cl r_cl]. rewrite mc_cl, G1. unfold replay_req. cbn [negb].
+      apply coh_put'; [reflexivity|reflexivity|exact C0].
+    + destruct (negb (patch_needed c l)); cbn [fst]; [exact I1|].
+      destruct (is_dry _); cbn [fst]; [exact I1|].
+      destruct (faulted sc (FApply (l_id l))); cbn [fst].
+      { apply (Inv_log s); [rewrite mc_tr; exact G4|exact I0|exact AK|rewrite mc_cl, G1; exact C0]. }
+      apply (Inv_log s); [cbn [set_cl r_tr]; rewrite mc_tr; exact G4|exact I0|exact AK|].
+      cbn [set_cl r_cl]. rewrite mc_cl, G1. unfold replay_req. cbn [negb].
+      apply coh_put'; [|apply merged_owner|exact C0].
+      rewrite merged_id. eapply find_obj_id. apply GF. reflexivity.
+  Qed.
+
+  (* APIService fallback: the rejected apply PATCH leaves the cluster as it was, so the second
+     attempt meets the same owner *)
   Lemma w_kubectl_apply s l :
     (forall c, find_obj (objs (r_cl s)) (l_id l) = Some c -> can_apply sc (c_owner c) = true) ->
     Inv s -> Inv (fst (kubectl_apply sc s l)).
   Proof.
-    intros HP I0. pose proof I0 as [W0 C0].
-    pose proof (aok_from_coh _ _ (l_id l) C0 HP) as AK.
-    unfold kubectl_apply. cbv zeta.
-    pose proof (same4_get_obj sc s (l_id l)) as G. pose proof (get_obj_found sc s (l_id l)) as GF.
-    destruct (get_obj sc s (l_id l)) as [s1 g]. cbn [fst snd] in G, GF. destruct G as [G1 [_ [_ G4]]].
-    assert (I1 : Inv s1) by (eapply Inv_same; eassumption).
-    destruct (ssa_mode sc).
-    - destruct (faulted sc (FApply (l_id l))); cbn [fst].
-      { apply (Inv_log s); [apply mc_tr|exact I0|exact AK|rewrite mc_cl; exact C0]. }
-      rewrite (mc_cl sc s).
-      destruct (find_obj (objs (r_cl s)) (l_id l)) as [c|] eqn:EF;
-        destruct (match o_dry (sc_opts sc) with DServer => true | _ => false end); cbn [fst].
-      + apply (Inv_log s); [apply mc_tr|exact I0|exact AK|rewrite mc_cl; exact C0].
-      + apply (Inv_log s); [cbn [set_cl r_tr]; apply mc_tr|exact I0|exact AK|].
-        cbn [set_cl r_cl]. unfold replay_req. cbn [negb]. apply coh_put'; [reflexivity|reflexivity|exact C0].
-      + apply (Inv_log s); [apply mc_tr|exact I0|exact AK|rewrite mc_cl; exact C0].
-      + apply (Inv_log s); [cbn [set_cl r_tr]; apply mc_tr|exact I0|exact AK|].
-        cbn [set_cl r_cl]. unfold replay_req. cbn [negb]. apply coh_put'; [reflexivity|reflexivity|exact C0].
-    - destruct g as [| |c]; cbn [fst]; try exact I1.
-      + destruct (is_dry _); cbn [fst]; [exact I1|].
-        destruct (faulted sc (FApply (l_id l))); cbn [fst].
-        { apply (Inv_log s); [rewrite mc_tr; exact G4|exact I0|exact AK|rewrite mc_cl, G1; exact C0]. }
-        apply (Inv_log s); [cbn [set_cl r_tr]; rewrite mc_tr; exact G4|exact I0|exact AK|].
-        cbn [set_cl r_cl]. rewrite mc_cl, G1. unfold replay_req. cbn [negb].
-        apply coh_put'; [reflexivity|reflexivity|exact C0].
-      + destruct (negb (patch_needed c l)); cbn [fst]; [exact I1|].
-        destruct (is_dry _); cbn [fst]; [exact I1|].
-        destruct (faulted sc (FApply (l_id l))); cbn [fst].
-        { apply (Inv_log s); [rewrite mc_tr; exact G4|exact I0|exact AK|rewrite mc_cl, G1; exact C0]. }
-        apply (Inv_log s); [cbn [set_cl r_tr]; rewrite mc_tr; exact G4|exact I0|exact AK|].
-        cbn [set_cl r_cl]. rewrite mc_cl, G1. unfold replay_req. cbn [negb].
-        apply coh_put'; [|apply merged_owner|exact C0].
-        rewrite merged_id. eapply find_obj_id. apply GF. reflexivity.
+    intros HP I0.
+    destruct (kubectl_apply_cases sc l s) as [[_ ->]|[[_ [-> _]]|[_ [E [_ [_ ->]]]]]].
+    - apply w_csa_apply; assumption.
+    - cbn [fst]. apply w_ssa_patch; assumption.
+    - pose proof (w_ssa_patch s l 0 HP I0) as I1.
+      assert (C1 : r_cl (fst (ssa_patch sc s l 0)) = r_cl s).
+      { rewrite (ssa_patch_stream sc l s 0 E). cbn [log_req emit r_cl]. apply mc_cl. }
+      assert (HP1 : forall c, find_obj (objs (r_cl (fst (ssa_patch sc s l 0)))) (l_id l) = Some c -> can_apply sc (c_owner c) = true)
+        by (rewrite C1; exact HP).
+      destruct (apisvc_fallback_cases sc l (fst (ssa_patch sc s l 0))) as [[_ ->]|[_ ->]].
+      + cbn [fst]. apply w_ssa_patch; assumption.
+      + apply w_csa_apply; assumption.
   Qed.
 
   Lemma can_apply_adopt_all ow : pol = PAdoptAll -> can_apply sc ow = true.
